@@ -23,7 +23,7 @@ RULE = ('two streams. (a) symbol LISTS that no single parse_model() call returns
         'each symbol\'s code in list order). Every build is also solved on spans of length LAGS+LEADS+{0,1,2} with default and explicit start/end and compared with the hand-computable expectation (positions, statuses, values of one in-order pass; full trivial solve for models without endogenous variables), and rebuilt with the lags/leads/min_* settings given as NumPy integer scalars (int64, int32, intp, uint8, int16, array element, array max; bool and float left out because HEAD itself writes them verbatim): byte-identical text, executable in the plain-int namespace, LAGS/LEADS plain ints, all three routes. Lists also hold symbols whose equation/code are falsy but not None (empty / comment-only / whitespace fences from parse_model and hand-built; they carry an equation: converter called, output inserted) with a marking converter in place of the if-wrapping one, and exogenous-only / verbatim-only lists; every evaluation and boundary solve runs in a sampled numeric dtype (float64, float32, int) against the reference in that dtype, and every model without endogenous variables is solved in each dtype HEAD accepts (float64, float32, int, bool, str, object). (b) grammar programs (gen_scripts.gen_program with verbatim fragments and named periods) extended with fenced '
         'verbatim blocks (incl. blank lines and nested indentation), plus the empty script, verbatim-only scripts and '
         'symbol lists with the equation of one endogenous symbol removed; crossed with with_type_hints in {True,False} x '
-        'lag/lead settings (default + rows of the C03 Latin design) x converter in {default, identity-on-code, wrapping '
+        'lag/lead settings (default + rows of the C03 Latin design) x converter in {default, identity-on-code, wrapping, suite-continuing guard (first block opens `if t >= 0:`, every other block is indented under it), marking '
         '(multi-line, blank and whitespace-only lines), empty}; every combination is built three ways (build_model, '
         'exec of build_model_definition text, exec of CODE) and evaluated on random data at every feasible period. '
         'distinct = distinct (script, symbols variant, options, converter); non-trivial = at least one code-carrying symbol')
@@ -395,6 +395,18 @@ def _exec_in(text, ns):
     return env['Model']
 
 
+def expected_lengths(symbols, o):
+    """LAGS / LEADS as the property describes them ("same ... lag/lead lengths"; C03: the deepest lag and the furthest lead
+    appearing anywhere, 0 if none; explicit lags=/leads= replace, min_ only raise) — read off the symbols' own lags/leads."""
+    idx = [s_ for s_ in symbols if s_.type not in (P.Type.FUNCTION, P.Type.KEYWORD, P.Type.VERBATIM)
+           and isinstance(s_.lags, int) and isinstance(s_.leads, int)]
+    lags = max([0] + [-s_.lags for s_ in idx])
+    leads = max([0] + [s_.leads for s_ in idx])
+    want_lags = o['lags'] if o['lags'] is not None else max(lags, o['min_lags'] or 0)
+    want_leads = o['leads'] if o['leads'] is not None else max(leads, o['min_leads'] or 0)
+    return want_lags, want_leads
+
+
 def carries(s):
     return s.type in (P.Type.ENDOGENOUS, P.Type.VERBATIM) and s.equation is not None and s.code is not None
 
@@ -518,6 +530,10 @@ def run_case(ctx, rep, case, batch):
                 continue
             if cname == ('wrap' if falsy_case else 'mark'):
                 continue   # `wrap` puts the code under an `if`: not valid Python for an empty code; `mark` is its stand-in
+            if cname == 'guard':
+                if falsy_case or rng.random() < 0.4:
+                    continue
+                conv = pc.make_guard(symbols)
             info = {k: v for k, v in case.items() if k != 'text'} | {'text': text, 'opts': o, 'converter': cname, 'dtype': dname}
             variants = {}
             logs = {}
@@ -561,7 +577,7 @@ def run_case(ctx, rep, case, batch):
             rep.dist['dtype:' + dname] += 1
             ref_eval = evaluate(variants[ref_key], case['labels'], data, periods, dt)
             # the code blocks run in SYMBOL-LIST order: compare with executing each symbol's code in that order
-            if dupfree and cname in ('default', 'code', 'wrap', 'mark'):
+            if dupfree and cname in ('default', 'code', 'wrap', 'mark', 'guard'):
                 want_eval = reference_evaluate(symbols, case['labels'], data, periods, kw, dt)
                 rep.dist['order-oracle:evaluated'] += 1
                 if want_eval != ref_eval:
@@ -594,6 +610,13 @@ def run_case(ctx, rep, case, batch):
                 bdata = {k: np.concatenate([v, v, v, v]) for k, v in data.items()}
                 boundary_oracle(rep, info, variants[which], symbols, kw, isinstance(case['labels'][0], str), bdata,
                                 any(s.type == P.Type.ENDOGENOUS for s in symbols), dt)
+            # lag/lead lengths: every indexed symbol counts (variables, parameters and errors alike)
+            wl_, wd_ = expected_lengths(symbols, o)
+            if (ref_attrs['LAGS'], ref_attrs['LEADS']) != (wl_, wd_):
+                deepest = [s_.name for s_ in symbols if isinstance(s_.lags, int) and (-s_.lags == wl_ or s_.leads == wd_)
+                           and s_.type in (P.Type.PARAMETER, P.Type.ERROR)]
+                rep.violate('lag-lead-lengths', f'LAGS, LEADS = {ref_attrs["LAGS"]}, {ref_attrs["LEADS"]}; the symbols\' deepest lag / '
+                            f'furthest lead with these settings give {wl_}, {wd_}' + (f' (carried by parameter/error {deepest})' if deepest else ''), info)
             # symbols without an equation contribute variables but no code: lists follow the symbol types
             by_type = {'ENDOGENOUS': P.Type.ENDOGENOUS, 'EXOGENOUS': P.Type.EXOGENOUS, 'PARAMETERS': P.Type.PARAMETER,
                        'ERRORS': P.Type.ERROR}
